@@ -745,3 +745,53 @@ def key_layout(repo, tier="quick"):
                 obs.append(ob_ok(oid, fi, sub, construct="%s" % ast.unparse(sub), instance="dict-by-" + (sp or "other"),
                                  reason="the node-keyed position dict is indexed with %s" % ("a node key" if sp == "node" else "a value that is not a counter")))
     return obs
+
+
+def null_guard_layout(repo, tier="quick"):
+    """C19 (a position for every node with the default arguments): a parameter of vespr_layout whose default is None is handed
+    to a callee that subscripts it unconditionally only where a guard has established that it is not None."""
+    from .common import call_arg
+    fi = repo.function("graph_layout:vespr_layout")
+    fl, cfg = fi.flow, fi.cfg
+    oid = "NULL.optional-param"
+    obs = []
+    defaults = fi.defaults()
+    optional = [p for p, d in defaults.items() if isinstance(d, ast.Constant) and d.value is None]
+    for call, nid in fl.calls():
+        t = repo.resolve_call(fi, call)
+        if t.kind != "repo" or t.fi is None:
+            continue
+        callee = t.fi
+        for i, pname in enumerate(callee.positional_params):
+            a = call_arg(call, i, pname)
+            if a is None:
+                continue
+            ct = fl.canon(a, nid)
+            if not (ct[0] == "param" and ct[1] in optional):
+                continue
+            # does the callee dereference that parameter on every path (subscript / attribute on the bare parameter)?
+            deref = [s for s in ast.walk(callee.node) if isinstance(s, (ast.Subscript, ast.Attribute)) and isinstance(s.value, ast.Name) and s.value.id == pname
+                     and id(s) in callee.cfg.owner]
+            if not deref:
+                continue
+            always = any(callee.cfg.must_pass(callee.cfg.entry, {callee.cfg.exit}, {callee.cfg.owner[id(s)]}, edge_filter=lambda a_, b_, l: l != "exc") for s in deref)
+            if not always:
+                continue
+            established = False
+            for test, pol, gid in guards_of(fi, nid):
+                tt = fl.canon(test, gid)
+                if tt == ct and pol:
+                    established = True
+                if tt[0] == "cmp" and tt[1] in (("is not",), ("!=",)) and tt[2][0] == ct and tt[2][1] == ("const", None) and pol:
+                    established = True
+                if tt[0] == "cmp" and tt[1] in (("is",), ("==",)) and tt[2][0] == ct and tt[2][1] == ("const", None) and not pol:
+                    established = True
+            (obs.append(ob_ok(oid, fi, call, construct="%s(..., %s) under `%s is not None`" % (callee.name, ct[1], ct[1]), instance=callee.name + ":" + ct[1],
+                              reason="the optional argument is only dereferenced where it was given")) if established else
+             obs.append(ob_fail(oid, fi, call, construct="%s(..., %s) reachable with %s = None" % (callee.name, ct[1], ct[1]), instance=callee.name + ":" + ct[1],
+                                reason="%s subscripts its parameter %s unconditionally; with the default %s=None the layout raises TypeError instead of returning positions"
+                                       % (callee.name, pname, ct[1]))))
+    if not obs:
+        obs.append(ob_ok(oid, fi, construct="no optional parameter of vespr_layout reaches an unconditional dereference", instance="none",
+                         reason="%d optional parameters scanned" % len(optional)))
+    return obs
